@@ -333,6 +333,7 @@ def run(ctx):
                             signature="C12:import-src-redefinition:accepted")
         _directed_imports(ctx, pk)
         _import_histories(ctx, pk)
+        _package_names(ctx, pk)
     finally:
         pk.close()
     return core.finish(ctx, obligations, discharged, names, RULE,
@@ -514,3 +515,183 @@ def _directed_imports(ctx, pk):
                         "implementer stayed in the loader's vocabulary" % (kind, texts, reused, fresh),
                         {"schema_xml": xml, "component_xml": body, "texts": texts, "reused": reused, "fresh": fresh},
                         signature="C12:half-read-component:vocabulary-kept")
+
+
+# --- the NAMES component packages carry.  A '%import' (and a schema-level <import package=…/>) is refused for names that are
+# not importable packages providing a component - and for no others: which names are importable packages is the import
+# system's business, and it serves every dotted name whose components are identifiers (PEP 3131: letters of any script),
+# sub-packages included.  One class per row: (what decorates the generated top-level name, a sub-package name of the class).
+_NAME_CLASSES = (
+    ("ascii-lower", ("", ""), "sub1"),
+    ("ascii-mixed-case", ("Zc", "Q"), "SubPkg"),
+    ("underscores", ("_", "__x"), "_priv"),
+    ("latin-1", ("\u00fc", "\u00e9"), "\u00fcber"),
+    ("latin-extended", ("\u017e", "\u0142"), "vid\u017eety"),
+    ("greek", ("\u03c0\u03b1\u03ba", "\u03b1"), "\u03c0\u03b1\u03ba\u03ad\u03c4\u03bf"),
+    ("cyrillic", ("\u0432\u0438\u0434", "\u044b"), "\u0432\u0438\u0434\u0436\u0435\u0442\u044b"),
+    ("cjk", ("\u90e8\u4ef6", ""), "\u90e8\u4ef6"),
+    ("non-ascii-digit", ("n", "\u0663"), "v\u0663"),
+)
+
+
+def _legal_component(seg):
+    """a name `import <seg>` in a source file looks up as it stands: an identifier, not a keyword, its own NFKC form"""
+    import keyword
+    import unicodedata
+    return seg.isidentifier() and not keyword.iskeyword(seg) and unicodedata.normalize("NFKC", seg) == seg
+
+
+def _is_component_package(name):
+    """the import system's own answer (independent of the library): the name imports, is a package, and one of its
+    directories holds a component.xml"""
+    import importlib
+    import os
+    try:
+        m = importlib.import_module(name)
+    except Exception:
+        return False
+    return hasattr(m, "__path__") and any(os.path.isfile(os.path.join(d, "component.xml")) for d in m.__path__)
+
+
+def _package_names(ctx, pk):
+    """component packages under every class of legal package name (_NAME_CLASSES), flat and as sub-packages of plain packages
+    of another class (quick: each class once flat and once as a sub-package; thorough: also three levels and more pairings).
+    Per package P (one implementer, one non-implementer): the texts that import it before / after / twice / through a
+    definition / not at all, a second (plainly named) component that itself imports P, the schema importing P itself, and
+    the names of the same class that are NOT importable component packages (sibling that does not exist, missing sub-package,
+    missing parent, the plain parent package, a module, empty components).  Loads run in sequences of up to 4 on one schema
+    object and on a fresh one.  Oracle: the statement (expected_why), the model on the fresh schema, the schema object's
+    vocabulary after every load."""
+    rng = ctx.rng
+    abss = ["plug"]
+    own = [F.AbsD("plug"), F.TypeD("own0", [F.KeyD("k", "string")], implements="plug"), F.TypeD("ext0", [], extends="own0")]
+    impl = {"own0": "plug", "ext0": None}
+    con = ["own0", "ext0"]
+
+    def top(cls):
+        return cls[1][0] + pk.fresh_name("zcvn") + cls[1][1]
+
+    plans = []          # (class of the package's own name, shape, name components, their classes)
+    for cls in _NAME_CLASSES:
+        plans.append((cls, "flat", [top(cls)], [cls[0]]))
+        parent = rng.choice(_NAME_CLASSES)
+        plans.append((cls, "sub-package", [top(parent), cls[2]], [parent[0], cls[0]]))
+    if ctx.thorough():
+        for cls in _NAME_CLASSES:
+            for parent in _NAME_CLASSES:
+                plans.append((cls, "sub-package", [top(parent), cls[2]], [parent[0], cls[0]]))
+            mid, up = rng.choice(_NAME_CLASSES), rng.choice(_NAME_CLASSES)
+            plans.append((cls, "sub-sub-package", [top(up), mid[2], cls[2] + "_3"], [up[0], mid[0], cls[0]]))
+    for n, (cls, shape, parts, pclasses) in enumerate(plans):
+        cname = ".".join(pclasses)
+        if not all(_legal_component(x) for x in parts):
+            ctx.count("pkgname:skipped-not-a-legal-name")
+            continue
+        P = ".".join(parts)
+        ptypes = [F.TypeD("pt%d" % n, [], implements="plug"), F.TypeD("pn%d" % n, [])]
+        try:
+            pk.add_named_component(P, ptypes)
+            if not _is_component_package(P):
+                raise OSError("not served by the import system")
+        except (OSError, UnicodeError):
+            ctx.count("pkgname:skipped-host-cannot-store-the-name")      # a file system that cannot hold the name
+            continue
+        qtypes = [F.TypeD("qt%d" % n, [], implements="plug")]
+        Q = pk.add_named_component(pk.fresh_name("zcvq"), qtypes, imports=(P,))
+        pkgs = [(P, ptypes, ()), (Q, qtypes, (P,))]
+        # names of the same class that are not importable component packages
+        bad = {"missing": P + (cls[1][1] or cls[1][0] or "x"), "missing-child": P + "." + cls[2] + "_none",
+               "missing-parent": top(cls) + "." + parts[-1], "nocomp": pk.add_named_component(top(cls)),
+               "module": pk.add_named_component(top(cls), module=True)}
+        if len(parts) > 1:
+            bad["plain-parent"] = ".".join(parts[:-1])
+        illegal = [P + ".", "." + P, parts[0] + ".." + parts[-1]]
+        stale = [b for b in bad.values() if _is_component_package(b)]
+        if stale:       # cannot happen by construction; never let a wrong expectation through
+            raise AssertionError("generated 'bad' names are importable component packages: %r" % stale)
+        pt, pn, qt = ptypes[0].name, ptypes[1].name, qtypes[0].name
+        for c in set(pclasses):
+            ctx.count("pkgname:class:" + c)
+        ctx.count("pkgname:shape:" + shape)
+        texts = [["%import " + P, "<%s/>" % pt],
+                 ["<%s/>" % pt, "%import " + P],
+                 ["<own0/>", "%import " + P, "<%s/>" % pt, "%import " + P, "<%s x1/>" % pt.upper()],
+                 ["%import " + P, "<%s/>" % pn],
+                 ["%import " + P, "<ext0/>"],
+                 ["%define zpk " + P, "%import " + rng.choice(["$zpk", "${ZPK}"]), "<%s/>" % pt],
+                 ["<%s/>" % pt],
+                 ["%import " + Q, "<%s/>" % pt, "<%s/>" % qt],
+                 ["<%s/>" % qt, "%import " + Q]]
+        texts += [["%import " + b, "<own0/>"] for b in list(bad.values()) + illegal]
+        rng.shuffle(texts)
+        for simports in ((), (P,), (Q,)):
+            sd = F.SchemaD([F.SectD("plug", "*", True, False, "plugs"), F.KeyD("plain", "string")], own, imports=simports)
+            try:
+                real = F.load_real(sd)
+            except Exception as e:
+                ctx.evaluations += 1
+                ctx.violate("a schema importing the component package %r (%s name, %s; an importable package providing a component) "
+                            "was refused: %s: %s" % (P, cname, shape, type(e).__name__, e),
+                            {"schema_xml": F.render_xml(sd), "package": P, "name_class": cname, "shape": shape,
+                             "packages": {e2[0]: [F.render_xml(F.SchemaD([], e2[1]), "component"), list(e2[2])] for e2 in pkgs}},
+                            signature="C12:package-name:schema-level-import-refused")
+                continue
+            elab = world_elab(sd, abss, impl, pkgs)
+            if not cfgstream.check_digest(ctx, sd, real, elab):
+                continue
+            use = texts if not simports else texts[:6] + [["<%s/>" % pt], ["<%s/>" % pn]]
+            model = {}
+            if ctx.driver_ok and not simports:
+                mp = [pkggen.model_pkg(P, ptypes, elab)] + [[b, core.sexp.Atom("illegalname")] for b in illegal] + \
+                     [[b, core.sexp.Atom({"nocomp": "nocomponent", "plain-parent": "nocomponent", "module": "notpackage"}.get(k, "notimportable"))]
+                      for k, b in bad.items()]
+                flat = [t for t in use if not any(Q in l for l in t)]      # the model's packages do not import packages
+                for t, a in zip(flat, core.driver_batch([cfgrun.model_load_request(elab, t, cfgstream.URL, pkgs=mp) for t in flat])):
+                    m = cfgrun.canon_model(a)
+                    model[tuple(t)] = "ok" if m[0] == "ok" else "reject" if m[0] == "cfg" else m[0]
+            vocab = _vocabulary(real)
+            history = []
+            for t in use:
+                exp, why = expected_why(abss, con, impl, pkgs, bad, t, None, simports)
+                out, _, _ = cfgrun.real_load(real, "\n".join(t) + "\n", cfgstream.URL, reuse=False)
+                fo, _, _ = cfgrun.real_load(F.load_real(sd), "\n".join(t) + "\n", cfgstream.URL, reuse=False)
+                got = "ok" if out[0] == "ok" else "reject" if out[0] == "cfg" else out[0]
+                gotf = "ok" if fo[0] == "ok" else "reject" if fo[0] == "cfg" else fo[0]
+                ctx.evaluations += 1
+                ctx.count("pkgname:expected:" + exp)
+                ctx.nontriv(("package-name", P, simports, tuple(t)))
+                rep = {"schema_xml": F.render_xml(sd), "schema_level_imports": list(simports), "lines": t, "package": P,
+                       "name_class": cname, "shape": shape, "layout": {k: pk.layout.get(k) for k in [P, Q] + list(bad.values())},
+                       "packages": {e[0]: [F.render_xml(F.SchemaD([], e[1]), "component"), list(e[2])] for e in pkgs},
+                       "not_component_packages": dict(bad), "history": [list(h) for h in history], "expected": exp, "why": why,
+                       "reused_schema": out[:2], "fresh_schema": fo[:2]}
+                mm = model.get(tuple(t))
+                if mm is not None:
+                    ctx.count("pkgname:model-compared")
+                    if mm != gotf:
+                        ctx.disagree("package-name", rep, fo[:3], mm)
+                if gotf != exp and gotf in ("ok", "reject"):
+                    ctx.violate("component package %r (%s name, %s), fresh schema importing %r itself: %r gives %s %r, the implementer "
+                                "rules give %s" % (P, cname, shape, list(simports), t, gotf, fo[1:3], exp), rep,
+                                signature="C12:package-name:fresh:%s-expected-%s" % (gotf, exp))
+                elif got != exp and got in ("ok", "reject"):
+                    leaked = any(l.startswith("%import") for h in history for l in h)
+                    ctx.violate("component package %r (%s name, %s), after the loads %r: %r gives %s, against a fresh schema %s"
+                                % (P, cname, shape, [list(h) for h in history], t, got, gotf), rep,
+                                signature=_history_signature(got, exp, why, leaked))
+                history.append(t)
+                _check_vocabulary(ctx, real, vocab, rep, history)
+                if len(history) >= 4:
+                    history = []
+                    real = F.load_real(sd)
+                    vocab = _vocabulary(real)
+        if n % 6 == 0:
+            ctx.sample({"package": P, "name_class": cname, "shape": shape, "lines": texts[0],
+                        "expected": expected(abss, con, impl, pkgs, bad, texts[0])})
+
+
+RULE += ("; component packages under every class of legal package name (ASCII lower / mixed case / underscores, Latin-1, Latin "
+         "extended, Greek, Cyrillic, CJK identifiers, non-ASCII digits), flat and as sub-packages of plain packages of another class: "
+         "'%import' before / after / twice / through a definition / not at all, a component importing the package, the schema "
+         "importing it, and the same-class names that are not importable component packages (missing sibling / child / parent, "
+         "plain parent, module, empty components)")
